@@ -11,8 +11,9 @@ Insertion and removal perform *the same rotations and recolourings in the same c
   far nephew red), the Boolean result of `del` is "the deficit is still present one level up".
 The compare function is a parameter returning `Ordering` (the Go code only looks at the sign of the `int`).
 Every lookup/insert/remove has a companion `…Cmps` giving the number of calls the Go code makes to `compare`;
-the `Tree` wrappers return the pair.  Shape, colours, results and comparison counts are compared with the real tree
-by the correspondence run of `./check C06`. -/
+the `Tree` wrappers return the pair.  Results, shape and colours are compared with the real tree by the correspondence
+run of `./check C06`; the real comparison counts are judged against the property's bound (which the model's counts meet
+by `C06.compares_run`), exact equality of the counts is recorded for information only. -/
 namespace RB
 
 inductive Color | red | black deriving DecidableEq, Repr
